@@ -15,8 +15,9 @@ EXTENDS Integers, Sequences, FiniteSets, TLC, Json
 CONSTANT N
 Types == 1..N
 \* shape of a type body
-\* leaf: an object; any / empty / regex: the other notations a TYPE may have; scalar: a JSight scalar
-Shapes == [k : {"leaf", "any", "empty", "regex", "scalar"}] \cup [k : {"ref", "prop", "optprop", "arr", "allof"}, a : Types] \cup [k : {"or"}, a : Types, b : Types]
+\* leaf: an object; any / empty / regex: the other notations a TYPE may have; scalar: a JSight scalar;
+\* keyref: an object whose key is a type shortcut ({ @t : 1 }); nullref: a reference with a rule (@t // {nullable: true})
+Shapes == [k : {"leaf", "any", "empty", "regex", "scalar"}] \cup [k : {"ref", "prop", "optprop", "arr", "allof", "keyref", "nullref"}, a : Types] \cup [k : {"or"}, a : Types, b : Types]
 Sites == {"none", "path-ref", "path-prop", "headers", "query", "request", "response", "rpc", "typeuse"}
 
 VARIABLES g, site
